@@ -367,4 +367,84 @@ theorem cov_param (f : Nat) (name : String) (bp bit : Option Nat) (kind : PKind)
       h.lift rfl rfl fun dr bl hr => .lengthKey f name bp bit dop ls.st dr bl hr
   | unsupported => exact .inl hb
 
+/-! ### stepping through a `do` block -/
+
+theorem mem_getD_bind {β : Type} {k : DecState → LogM β} {ls : LState} {b : Bool} {e : LEntry}
+    (he : e ∈ resLog ((getD >>= k) ls b)) : e ∈ resLog (k ls.st ls b) := he
+theorem mem_modD_bind {β : Type} {g : DecState → DecState} {k : Unit → LogM β} {ls : LState} {b : Bool} {e : LEntry}
+    (he : e ∈ resLog ((modD g >>= k) ls b)) : e ∈ resLog (k () { ls with st := g ls.st } b) := he
+theorem mem_odxassert_bind {β : Type} {c : Bool} {k : Unit → LogM β} {ls : LState} {e : LEntry}
+    (he : e ∈ resLog ((odxassert c >>= k) ls true)) : (c = true ∧ e ∈ resLog (k () ls true)) ∨ e ∈ ls.log := by
+  cases c
+  · exact .inr he
+  · exact .inl ⟨rfl, he⟩
+theorem mem_odxraise_bind {β : Type} {err : Err} {k : Unit → LogM β} {ls : LState} {e : LEntry}
+    (he : e ∈ resLog ((odxraise err >>= k) ls true)) : e ∈ ls.log := he
+theorem mem_bind_split {α β : Type} {m : LogM α} {k : α → LogM β} {ls : LState} {b : Bool} {e : LEntry}
+    (he : e ∈ resLog ((m >>= k) ls b)) :
+    (∃ err ls1, m ls b = .error (err, ls1) ∧ e ∈ ls1.log) ∨ ∃ a ls1, m ls b = .ok (a, ls1) ∧ e ∈ resLog (k a ls1 b) := by
+  change e ∈ resLog (OdxM.bind m k ls b) at he
+  unfold OdxM.bind at he
+  cases hms : m ls b with
+  | error x => obtain ⟨e0, l0⟩ := x; rw [hms] at he; exact .inl ⟨e0, l0, rfl, he⟩
+  | ok p => obtain ⟨a, l1⟩ := p; rw [hms] at he; exact .inr ⟨a, l1, rfl, he⟩
+
+macro "nolog'" : tactic => `(tactic| repeat (first
+    | exact nolog_dopI2P _ _ | exact nolog_methodI2P _ _ _ | nolog_step | split | dsimp only))
+
+/-! ### data object properties -/
+
+theorem cov_dop_simple (f : Nat) (dct : Dct) (phys : BaseType) (cm : CCompu) :
+    Cov (f + 1) (.dop (.simple dct phys cm)) (decodeDopL (f + 1) (.simple dct phys cm)) := by
+  have h : Cov f (.dct dct) (decodeDopL (f + 1) (.simple dct phys cm)) := by
+    unfold decodeDopL
+    exact (cov_dct f dct).bind_nolog (fun _ => by nolog')
+  exact fun ls e he => (h ls e he).imp id fun h => h.lift rfl rfl fun dr bl hr => .simple f dct phys cm ls.st dr bl hr
+
+theorem cov_dop_dtc (f : Nat) (dct : Dct) (phys : BaseType) (cm : CCompu) (dtcs : List (Int × String)) :
+    Cov (f + 1) (.dop (.dtc dct phys cm dtcs)) (decodeDopL (f + 1) (.dtc dct phys cm dtcs)) := by
+  have h : Cov f (.dct dct) (decodeDopL (f + 1) (.dtc dct phys cm dtcs)) := by
+    unfold decodeDopL
+    exact (cov_dct f dct).bind_nolog (fun _ => by nolog')
+  exact fun ls e he => (h ls e he).imp id fun h => h.lift rfl rfl fun dr bl hr => .dtc f dct phys cm dtcs ls.st dr bl hr
+
+theorem cov_dop_struct (f : Nat) (bs : Option Nat) (ps : List Param) (ih : Cov f (.composite ps) (decodeCompositeL f ps)) :
+    Cov (f + 1) (.dop (.struct bs ps)) (decodeDopL (f + 1) (.struct bs ps)) := by
+  intro ls e he
+  unfold decodeDopL at he
+  have h1 := mem_bind_nolog (fun _ => by nolog') (mem_getD_bind he)
+  exact (ih ls e h1).imp id fun h => h.lift rfl rfl fun dr bl hr => .struct f bs ps ls.st dr bl hr
+
+theorem cov_dop_staticField (f : Nat) (count size : Nat) (item : Dop)
+    (ih : Cov f (.staticItems item size count) (decodeStaticItemsL item size f count)) :
+    Cov (f + 1) (.dop (.staticField count size item)) (decodeDopL (f + 1) (.staticField count size item)) := by
+  intro ls e he
+  unfold decodeDopL at he
+  rcases mem_odxassert_bind (mem_getD_bind he) with ⟨hcb, h1⟩ | h1
+  · have h2 := mem_bind_nolog (fun _ => by nolog') (mem_modD_bind h1)
+    exact (ih _ e h2).imp id fun h => h.lift rfl rfl fun dr bl hr =>
+      .staticField f count size item ls.st dr bl (of_decide_eq_true hcb) hr
+  · exact .inl h1
+
+theorem cov_dop_eopField (f : Nat) (mn mx : Option Nat) (item : Dop) (ih : Cov f (.toEnd item) (decodeToEndL item f)) :
+    Cov (f + 1) (.dop (.eopField mn mx item)) (decodeDopL (f + 1) (.eopField mn mx item)) := by
+  intro ls e he
+  unfold decodeDopL at he
+  rcases mem_odxassert_bind (mem_getD_bind he) with ⟨hcb, h1⟩ | h1
+  · have h2 := mem_bind_nolog (fun _ => by nolog') (mem_modD_bind h1)
+    exact (ih _ e h2).imp id fun h => h.lift rfl rfl fun dr bl hr =>
+      .eopField f mn mx item ls.st dr bl (of_decide_eq_true hcb) hr
+  · exact .inl h1
+
+theorem cov_dop_endMarkerField (f : Nat) (tv : IVal) (tdop item : Dop)
+    (ih : Cov f (.untilMarker tv tdop item) (decodeUntilMarkerL tv tdop item f)) :
+    Cov (f + 1) (.dop (.endMarkerField tv tdop item)) (decodeDopL (f + 1) (.endMarkerField tv tdop item)) := by
+  intro ls e he
+  unfold decodeDopL at he
+  rcases mem_odxassert_bind (mem_getD_bind he) with ⟨hcb, h1⟩ | h1
+  · have h2 := mem_bind_nolog (fun _ => by nolog') (mem_modD_bind h1)
+    exact (ih _ e h2).imp id fun h => h.lift rfl rfl fun dr bl hr =>
+      .endMarkerField f tv tdop item ls.st dr bl (of_decide_eq_true hcb) hr
+  · exact .inl h1
+
 end OdxVerif.Codec
